@@ -25,7 +25,7 @@ from harness.core import cps, uncps
 from . import codec_common as cc
 
 A10 = [35, 58, 59, 92, 47, 10, 97, 32, 13, 65279]
-SYMS = [1, 2, 3, 4, 5, 6, 7, 35, 58, 59, 92, 47, 10, 97, 32]
+SYMS = [1, 2, 3, 4, 5, 6, 7, 8, 9, 35, 58, 59, 92, 47, 10, 97, 32]
 NAMES = ["a.sm", "a.ssc", "A.SM", "a.txt", "a.sm.bak", "b.SsC", "a.ssc.old"]
 
 
@@ -251,6 +251,10 @@ def gen_param(rng):
     for c in comps:
         if rng.random() < 0.3:
             c = c.replace("a", "\\:", 1) if rng.random() < 0.5 else c + "\\;"
+        if rng.random() < 0.15:      # escaped metacharacters: the loaded value holds them literally
+            esc = rng.choice(["\\/\\/", "\\/", "\\#", "\\\\", "x\\/\\/y", "\\/\\/ z", "\\\n"])
+            i = rng.randint(0, len(c))
+            c = c[:i] + esc + c[i:]
         if rng.random() < 0.1:
             c += "// comment"
             if rng.random() < 0.7:
@@ -264,8 +268,8 @@ def gen_text(rng):
     parts = []
     if rng.random() < 0.15:
         parts.append("\ufeff")
-    if rng.random() < 0.15:
-        parts.append(rng.choice(["stray", " \t", "// note\n", ";", ":", "x\n", "\\a", "/"]))
+    if rng.random() < 0.25:
+        parts.append(rng.choice(["stray", " \t", "// note\n", ";", ":", "x\n", "\\a", "/", "// a; b: c\n", "x;y\n", " ;\n"]))
     for _ in range(rng.choice([0, 1, 2, 3, 4, 6, 9])):
         parts.append(gen_param(rng))
         r = rng.random()
@@ -273,6 +277,13 @@ def gen_text(rng):
             parts.append(rng.choice(["\n", "\r\n", "\n\n", " "]))
         elif r < 0.62:
             parts.append(rng.choice(["stray text\n", "x", "\n// c\n", "\ufeff", " ; ", "\u3000\n", "\\#"]))
+    if rng.random() < 0.3:      # chart blocks: parameters after a NOTEDATA, note data under either or both keys
+        for _ in range(rng.choice([1, 1, 2, 3])):
+            parts.append(rng.choice(["#NOTEDATA:;", "#notedata:;\n", "#NoteData:x;"]))
+            for _ in range(rng.choice([0, 1, 2, 4])):
+                parts.append(gen_param(rng) + rng.choice(["", "\n"]))
+            parts.append(rng.choice(["#NOTES:0000\n,\n0000;", "#NOTES2:1;\n", "#notes:x;#NOTES2:y;", "#NOTES2:a;#NOTES:b;\n", "",
+                                     "#NOTES:;#AFTER:b;"]))
     if rng.random() < 0.1:
         parts.append(rng.choice(["trailing", "#LAST:v", "#K", "//end"]))
     t = "".join(parts)
